@@ -174,14 +174,14 @@ Print Assumptions rmsd_precentered_eq.
 
 (* ---- the code as found: the invariant fails although the guard holds *)
 Theorem cache_inv_slice_as_found_refuted :
-  guarded inplace_guard (mkVar false true) (init_world specs1) ops_d1 = true /\
-  cinvb (fst (run (mkVar false true) (init_world specs1) ops_d1)) = false.
+  guarded inplace_guard (mkVar false true false) (init_world specs1) ops_d1 = true /\
+  cinvb (fst (run (mkVar false true false) (init_world specs1) ops_d1)) = false.
 Proof. exact d1_refuted. Qed.
 Print Assumptions cache_inv_slice_as_found_refuted.
 
 Theorem cache_inv_atom_slice_inplace_as_found_refuted :
-  guarded inplace_guard (mkVar true false) (init_world specs1) ops_d2 = true /\
-  cinvb (fst (run (mkVar true false) (init_world specs1) ops_d2)) = false.
+  guarded inplace_guard (mkVar true false false) (init_world specs1) ops_d2 = true /\
+  cinvb (fst (run (mkVar true false false) (init_world specs1) ops_d2)) = false.
 Proof. exact d2_refuted. Qed.
 Print Assumptions cache_inv_atom_slice_inplace_as_found_refuted.
 
